@@ -1,5 +1,6 @@
 import Mutagen.Proofs.RsyncIdent
 import Mutagen.Proofs.RsyncWeak
+import Mutagen.Proofs.RsyncRoll
 /-!
 # C19 — rsync deltas reconstruct the target exactly
 
@@ -98,6 +99,16 @@ theorem roll_eq_recompute (out inp : UInt8) (w : List UInt8) (blockSize : Nat)
     rollWeakHash (weakHash (out :: w) blockSize).2.1 (weakHash (out :: w) blockSize).2.2 out inp blockSize =
       weakHash (w ++ [inp]) blockSize :=
   Mutagen.Proofs.Rsync.roll_eq_recompute out inp w blockSize hlen
+
+/-- **Inside `Deltify`'s main loop the rolled weak hash is the weak hash of the
+block at the end of the buffer**: the closure calls of the main loop (see
+`Mutagen.Proofs.Rsync.mainLoop_eq`) are the same whether the weak hash is rolled,
+as the code does, or recomputed from scratch in every iteration. -/
+theorem rolling_is_recomputation (blockSize cap : Nat) (full : List (BlockHash D)) (hbs : 0 < blockSize)
+    (fuel : Nat) (target : List UInt8) (r1 r2 : UInt32) :
+    loopEvents H blockSize cap full fuel target [] r1 r2 =
+      loopEventsRecompute H blockSize cap full fuel target [] :=
+  loopEvents_eq_recompute H blockSize cap full hbs fuel target [] r1 r2 (Or.inl rfl)
 
 /-- `Deltify` never reaches its `panic("buffer contains less than a block worth
 of data")` and the model's loop fuel always suffices, for every valid signature. -/
